@@ -839,4 +839,10 @@ Binding demonstration (2026-10-04, scratch worktrees of /repo under /tmp, remove
  by #line is missing (key cause=nohead; hooks/candidate-C15-heading-without-source.diff: with it `C15 quick: held' and no case
  needs the as-written model except eofif).
  TraceSrcPosAsw.cfg now describes the tree as it is (column packer and table policy repaired, EOF-in-#if and heading as written).
+ measured: quick 84 s wall at machine load 70 (the version before this round: 53 s idle / 120 s against 146 s when both ran side by
+ side at load 200), 897 cases (100 gen, 24 adj), ReportReq 10k states, ReportGen 179k states -> 867 layouts in 209 classes;
+ thorough 25 min: + ReportReq5 77k, ReportReq3f 264k states (3 files), ReportGen3/ReportGenL 12257 layouts in 1895 classes of which
+ 2500 replayed (every class), adj at k up to 60000 for every multi-fault family, 19918 cases, all accepted (5016 only through the
+ as-written model: nohead; 6 eofif); unchanged tree held with VERIF_SEED 1, 2, 3 and default.
+ TLC's 32-bit integers hold the packed word at the real widths only for serial line numbers < 2^17: a case must read < 131072 lines.
 """
